@@ -390,6 +390,7 @@ func main() {
 		return
 	}
 	foldGrid()
+	allOpsDiff()
 	if os.Getenv("HC01_ONLY") == "foldgrid" { // development aid
 		rep.Write(orc)
 		return
